@@ -806,6 +806,8 @@ enum Misfit {
     TooManyFiles,
     DuplicateText,
     NoFileIntoFile,
+    /// a text part under the name of a file field, directly before / after the field's file part(s)
+    TextBesideFiles,
 }
 
 #[derive(Debug, Clone)]
@@ -821,11 +823,12 @@ struct Raw {
     spare_text: String,
 }
 
-fn assemble(raw: Raw) -> (Vec<Item>, String) {
+fn assemble(raw: Raw) -> (Vec<Item>, String, Option<(String, String, bool)>) {
     let Raw { ty, fitted, unknown, misfit, pick, spare_files, spare_text, .. } = raw;
     let mut slots = fitted;
     let mut shape = "fit".to_string();
     let mut tail: Vec<Item> = Vec::new();
+    let mut beside: Option<(String, String, bool)> = None;
     if let Some(fields) = spec(ty) {
         if !fields.is_empty() {
             let i = pick.index(fields.len());
@@ -855,6 +858,14 @@ fn assemble(raw: Raw) -> (Vec<Item>, String) {
                         shape = format!("duplicate:{}", kind.tag());
                     }
                 }
+                Misfit::TextBesideFiles => {
+                    // (placed after the permutation, so that the two really are neighbours)
+                    if let Some((j, _)) = fields.iter().enumerate().filter(|(j, _)| matches!(slots[*j], Some(Item::Files { .. }))).nth(0) {
+                        let j = if matches!(slots[i], Some(Item::Files { .. })) { i } else { j };
+                        beside = Some((fields[j].0.to_string(), spare_text.clone(), pick.index(2) == 0));
+                        shape = format!("text-beside-files:{}", fields[j].1.tag());
+                    }
+                }
                 Misfit::NoFileIntoFile => {
                     if kind == Kind::File {
                         slots[i] = Some(Item::NoFile { name: fname.to_string(), mime: Some("application/octet-stream".into()), style: 0 });
@@ -867,7 +878,7 @@ fn assemble(raw: Raw) -> (Vec<Item>, String) {
     let mut items: Vec<Item> = slots.into_iter().flatten().collect();
     items.extend(unknown);
     items.extend(tail);
-    (items, shape)
+    (items, shape, beside)
 }
 
 /// deterministic permutation driven by generated keys (shrinks toward the identity)
@@ -915,13 +926,19 @@ fn case_strategy() -> BoxedStrategy<Case> {
                 2 => Just(Misfit::TooManyFiles),
                 2 => Just(Misfit::DuplicateText),
                 1 => Just(Misfit::NoFileIntoFile),
+                2 => Just(Misfit::TextBesideFiles),
             ];
             (Just((ty, boundary.clone(), final_crlf)), fitted, unknown, misfit, any::<prop::sample::Index>(), vec(file_strategy(b), 2..=3), nonempty_text(b), vec(any::<u8>(), 8..=8))
         })
         .prop_map(|((ty, boundary, final_crlf), fitted, unknown, misfit, pick, spare_files, spare_text, keys)| {
             let raw = Raw { ty, boundary: boundary.clone(), final_crlf, fitted, unknown, misfit, pick, spare_files, spare_text };
-            let (items, shape) = assemble(raw);
+            let (items, shape, beside) = assemble(raw);
             let mut items = permute(items, &keys);
+            if let Some((name, text, before)) = beside {
+                if let Some(j) = items.iter().position(|it| matches!(it, Item::Files { .. }) && it.name() == name) {
+                    items.insert(if before { j } else { j + 1 }, Item::Text { name, text, style: 0 });
+                }
+            }
             // keep the form at 0–6 parts where the type allows it
             while items.iter().map(|i| i.parts()).sum::<usize>() > 6 {
                 let Some(Item::Files { files, .. }) = items.iter_mut().filter(|i| i.parts() > 2).max_by_key(|i| i.parts()) else { break };
@@ -939,7 +956,7 @@ fn case_strategy() -> BoxedStrategy<Case> {
 impl Property for C10 {
     type Case = Case;
     const ID: &'static str = "C10";
-    const RULE: &'static str = "generated: a target type from a compiled catalogue of 11 (structs with String/&str, Option<String>/Option<&str>, File, Option<File>, Vec<File> fields in several orders and under non-identifier names, and a string map) and a form of 0–6 parts made to fit it: text fields (UTF-8 incl. empty, CR, LF, CRLF, `--`, boundary prefixes) and files (filename, optional media type, content over all bytes with CR, LF, `--`, NUL, high bytes and proper prefixes of the boundary — also after CRLF-- — over-represented; empty files; 1–4 consecutive files under one name; the browser's no-file-chosen part alone under its name), fields in any order, 0–2 parts under names the type does not have; in a quarter of the cases one deliberate misfit (required part dropped, text where a file belongs and vice versa, several files for a single-file field, a text field twice). An independent RFC 7578 encoder (self-checked by a strict RFC 2046 splitter) writes the body: boundary over bchars of length 1–70 occurring in no name, filename, media type or content; header names in four spellings; Content-Type before or after Content-Disposition; optional Content-Transfer-Encoding / Content-Length / text/plain part headers; close delimiter with or without CRLF. Oracle: the decoded struct equals the form field by field (text, filename, media type, bytes, order of same-name files) under the absent/empty conventions; a misfit must be Err. Non-trivial = a file whose content contains CR, LF or `--` or ends in CR/LF, or several files under one name, or an empty file; distinct by case.";
+    const RULE: &'static str = "generated: a target type from a compiled catalogue of 11 (structs with String/&str, Option<String>/Option<&str>, File, Option<File>, Vec<File> fields in several orders and under non-identifier names, and a string map) and a form of 0–6 parts made to fit it: text fields (UTF-8 incl. empty, CR, LF, CRLF, `--`, boundary prefixes) and files (filename, optional media type, content over all bytes with CR, LF, `--`, NUL, high bytes and proper prefixes of the boundary — also after CRLF-- — over-represented; empty files; 1–4 consecutive files under one name; the browser's no-file-chosen part alone under its name), fields in any order, 0–2 parts under names the type does not have; in a quarter of the cases one deliberate misfit (required part dropped, text where a file belongs and vice versa, several files for a single-file field, a text field twice, a text part under the name of a file field directly before or after its file parts). An independent RFC 7578 encoder (self-checked by a strict RFC 2046 splitter) writes the body: boundary over bchars of length 1–70 occurring in no name, filename, media type or content; header names in four spellings; Content-Type before or after Content-Disposition; optional Content-Transfer-Encoding / Content-Length / text/plain part headers; close delimiter with or without CRLF. Oracle: the decoded struct equals the form field by field (text, filename, media type, bytes, order of same-name files) under the absent/empty conventions; a misfit must be Err. Non-trivial = a file whose content contains CR, LF or `--` or ends in CR/LF, or several files under one name, or an empty file; distinct by case.";
     const ASSUMPTIONS: &'static [&'static str] = &[
         "field names and filenames contain no '\"', '\\', CR, LF (encoders disagree on escaping them); real files have a non-empty filename; media types are printable ASCII other than multipart/mixed (documented as unsupported)",
         "the boundary occurs in no content, text, name, filename or media type (stronger than RFC 2046, which only forbids CRLF--boundary)",
